@@ -41,6 +41,8 @@ func genDataCoreList(rng *rand.Rand, tier string, emit func(string)) {
 			ks = keys[:1+rng.Intn(len(keys))]
 		}
 		popHeavy := rng.Intn(3) == 0 // sessions in which lists are emptied and re-created often
+		multi := rng.Intn(3) == 0    // sessions with apply events of several entries
+		open := false                // an apply event is open (entries buffered)
 		// generator-side bookkeeping of list lengths: ONLY steers the choice of indexes (most inside the list, the
 		// rest at / beyond its ends); never used for an answer
 		llen := map[string]int{}
@@ -125,9 +127,17 @@ func genDataCoreList(rng *rand.Rand, tier string, emit func(string)) {
 					a = h("lclear", k)
 					llen[k] = 0
 				}
-				emit(fmt.Sprintf("w %d 1%s", ts, a))
-				if rng.Intn(4) == 0 {
-					emit("inv")
+				// one write in eight stays buffered in the open apply event (the leader-side pre-checks of the following
+				// writes do not see it: e.g. LPOP of a list that an earlier entry of the same event empties)
+				if multi && rng.Intn(8) == 0 && i+1 < n {
+					emit(fmt.Sprintf("w %d 0%s", ts, a))
+					open = true
+				} else {
+					emit(fmt.Sprintf("w %d 1%s", ts, a))
+					open = false
+					if rng.Intn(4) == 0 {
+						emit("inv")
+					}
 				}
 			} else {
 				var a string
@@ -146,6 +156,11 @@ func genDataCoreList(rng *rand.Rand, tier string, emit func(string)) {
 				emit("r" + a)
 			}
 		}
+		if open { // close the open apply event
+			ts++
+			emit(fmt.Sprintf("w %d 1%s", ts, h("rpush", ks[0], vals[0])))
+		}
+		emit("inv")
 		emit("dump")
 		emit("end")
 	}
